@@ -283,6 +283,31 @@ Proof.
   replace (N.to_nat (N.pos p - 1)) with (length pre + j)%nat by lia. reflexivity.
 Qed.
 
+(* what is not named in the appended actions is unchanged: raw text number j unless
+   an action carries its line number, the lines inserted above / below unless an
+   action carries the number of the first / last raw line *)
+Definition quiet (l : line) (f f' : fixst) (acts : list (descr * Z)) : Prop :=
+  (forall j, ~ In (l_lineno l + Z.of_nat j) (map snd acts) -> nth_error (f_texts f') j = nth_error (f_texts f) j) /\
+  (~ In (l_lineno l) (map snd acts) -> f_above f' = f_above f) /\
+  (~ In (l_lineno l + Z.of_nat (length (l_raw l)) - 1) (map snd acts) -> f_below f' = f_below f).
+
+Lemma quiet_refl l f : quiet l f f [].
+Proof. repeat split; reflexivity. Qed.
+
+Lemma quiet_trans l f1 f2 f3 a1 a2 : quiet l f1 f2 a1 -> quiet l f2 f3 a2 -> quiet l f1 f3 (a1 ++ a2).
+Proof.
+  intros (T1 & A1 & B1) (T2 & A2 & B2). unfold quiet. rewrite map_app. repeat split.
+  - intros j H. rewrite T2, T1; [reflexivity| |]; intro X; apply H; apply in_or_app; auto.
+  - intro H. rewrite A2, A1; [reflexivity| |]; intro X; apply H; apply in_or_app; auto.
+  - intro H. rewrite B2, B1; [reflexivity| |]; intro X; apply H; apply in_or_app; auto.
+Qed.
+
+Lemma nth_error_set_nth_other {A} n m (x : A) l : n <> m -> nth_error (set_nth n x l) m = nth_error l m.
+Proof.
+  revert n m; induction l as [|y l IH]; intros [|n] [|m] H; simpl; try reflexivity; try congruence.
+  apply IH. congruence.
+Qed.
+
 (* the line after an operation: same identity, actions appended, and the appended
    actions lead from the old blocks to the new ones *)
 Definition step_ok (o : opts) (l l' : line) : Prop :=
@@ -296,6 +321,7 @@ Definition step_ok (o : opts) (l l' : line) : Prop :=
       (acts <> [] -> shall_be_logged o (f_diag f) = true) /\
       Forall (fun a => fst a <> DSort) acts /\
       (acts = [] -> f_above f' = f_above f /\ f_texts f' = f_texts f /\ f_below f' = f_below f) /\
+      quiet l f f' acts /\
       lreach l l' (map entry_of acts)
   | _, _ => False
   end.
@@ -303,15 +329,18 @@ Definition step_ok (o : opts) (l l' : line) : Prop :=
 Lemma step_ok_refl o l f : l_fix l = Some f -> step_ok o l l.
 Proof.
   intro E. unfold step_ok. rewrite E. exists []. rewrite app_nil_r.
-  repeat split; try reflexivity; try congruence; [constructor|apply lreach_refl; reflexivity].
+  split; [reflexivity|]. split; [reflexivity|]. split; [reflexivity|]. split; [reflexivity|].
+  split; [reflexivity|]. split; [reflexivity|]. split; [reflexivity|]. split; [reflexivity|].
+  split; [congruence|]. split; [constructor|]. split; [auto|]. split; [apply quiet_refl|].
+  apply lreach_refl; reflexivity.
 Qed.
 
 Lemma step_ok_trans o l1 l2 l3 : step_ok o l1 l2 -> step_ok o l2 l3 -> step_ok o l1 l3.
 Proof.
   unfold step_ok. destruct (l_fix l1) as [f1|]; [|tauto]. destruct (l_fix l2) as [f2|]; [|tauto].
   destruct (l_fix l3) as [f3|]; [|tauto].
-  intros (a1 & A1 & D1 & V1 & M1 & N1 & R1 & F1 & L1 & S1 & NS1 & U1 & P1)
-         (a2 & A2 & D2 & V2 & M2 & N2 & R2 & F2 & L2 & S2 & NS2 & U2 & P2).
+  intros (a1 & A1 & D1 & V1 & M1 & N1 & R1 & F1 & L1 & S1 & NS1 & U1 & Q1 & P1)
+         (a2 & A2 & D2 & V2 & M2 & N2 & R2 & F2 & L2 & S2 & NS2 & U2 & Q2 & P2).
   exists (a1 ++ a2).
   split; [rewrite A2, A1, app_assoc; reflexivity|].
   split; [congruence|]. split; [congruence|]. split; [congruence|]. split; [congruence|].
@@ -321,6 +350,7 @@ Proof.
   split; [intro Hnil; apply app_eq_nil in Hnil as [-> ->];
           destruct (U1 eq_refl) as (X1 & X2 & X3); destruct (U2 eq_refl) as (Y1 & Y2 & Y3);
           repeat split; congruence|].
+  split; [eapply quiet_trans; [exact Q1|]; unfold quiet in *; rewrite <- N1, <- R1; exact Q2|].
   rewrite map_app. eapply lreach_trans; eassumption.
 Qed.
 
@@ -351,6 +381,7 @@ Proof.
   - intros _. exact S.
   - constructor; [discriminate|constructor].
   - discriminate.
+  - intros j0 Hj. cbn. apply nth_error_set_nth_other. intro; subst; apply Hj; left; reflexivity.
   - intros pre post Hp. apply reach_one.
     unfold entry_of. cbn [fst snd action_of].
     rewrite (act_entry_at (l_lineno l) pre j) by (try apply W; auto).
@@ -425,7 +456,9 @@ Proof.
   apply skip_false in K. intro H. inversion H; subst l'. clear H.
   unfold step_ok. rewrite E. cbn [l_fix with_fix].
   exists [(DAbove t, l_lineno l + 0)]. unfold describe, lineno_of. cbn.
-  repeat split; try reflexivity; try discriminate; [intros _; exact K|constructor; [discriminate|constructor]|].
+  repeat split; try reflexivity; try discriminate;
+    [intros _; exact K|constructor; [discriminate|constructor]
+    |intro Hq; exfalso; apply Hq; left; cbn; lia|].
   intros pre post Hp. apply reach_one. unfold entry_of. cbn [fst snd action_of].
   change 0 with (Z.of_nat 0).
   rewrite (act_entry_at (l_lineno l) pre 0) by (try apply W; auto).
@@ -480,7 +513,9 @@ Proof.
   unfold step_ok. rewrite E. cbn [l_fix with_fix].
   exists [(DBelow t, l_lineno l + (Z.of_nat (length (l_raw l)) - 1))]. unfold describe, lineno_of. cbn.
   repeat split; try reflexivity; try discriminate;
-    [apply set_nth_length|intros _; exact K|constructor; [discriminate|constructor]|].
+    [apply set_nth_length|intros _; exact K|constructor; [discriminate|constructor]
+    |intros j0 Hj; cbn; apply nth_error_set_nth_other; intro; subst j0; apply Hj; left; cbn; unfold n; lia
+    |intro Hq; exfalso; apply Hq; left; cbn; lia|].
   intros pre post Hp. apply reach_one. unfold entry_of. cbn [fst snd action_of].
   replace (Z.of_nat (length (l_raw l)) - 1) with (Z.of_nat (n - 1)) by (unfold n; lia).
   rewrite (act_entry_at (l_lineno l) pre (n - 1)) by (try apply W; auto).
@@ -537,6 +572,14 @@ Lemma delete_actions_props lineno n i :
   Forall (fun a : descr * Z => fst a <> DSort) (delete_actions lineno n i).
 Proof. revert i; induction n; intro i; simpl; constructor; [discriminate|apply IHn]. Qed.
 
+Lemma delete_actions_linenos lineno n : forall k j,
+  (k <= j < k + n)%nat -> In (lineno + Z.of_nat j) (map snd (delete_actions lineno n (Z.of_nat k))).
+Proof.
+  induction n as [|n IH]; intros k j H; [lia|]. cbn [delete_actions map snd].
+  destruct (Nat.eq_dec j k) as [->|Hne]; [left; reflexivity|right].
+  replace (Z.of_nat k + 1) with (Z.of_nat (S k)) by lia. apply IH. lia.
+Qed.
+
 Lemma delete_step o l l' f :
   wf_line l -> l_fix l = Some f ->
   delete o l = Ok l' -> step_ok o l l'.
@@ -552,7 +595,16 @@ Proof.
   assert (Hnil : delete_actions (l_lineno l) (length (f_texts f)) 0 = [] -> repeat [] (length (f_texts f)) = f_texts f).
   { destruct (f_texts f); [reflexivity|discriminate]. }
   repeat split; try reflexivity;
-    [apply repeat_length|intros _; exact K|apply delete_actions_props|apply Hnil; assumption|].
+    [apply repeat_length|intros _; exact K|apply delete_actions_props|apply Hnil; assumption| |].
+  { intros j Hj. cbn.
+    assert (Hge : (length (f_texts f) <= j)%nat).
+    { destruct (le_lt_dec (length (f_texts f)) j) as [Hle|Hlt]; [exact Hle|].
+      exfalso. apply Hj.
+      apply (delete_actions_linenos (l_lineno l) (length (f_texts f)) 0 j). lia. }
+    assert (E1 : nth_error (repeat (@nil N) (length (f_texts f))) j = None)
+      by (apply nth_error_None; rewrite repeat_length; exact Hge).
+    assert (E2 : nth_error (f_texts f) j = None) by (apply nth_error_None; exact Hge).
+    rewrite E2. exact E1. }
   intros pre post Hp. unfold blocks_of_line. rewrite E. cbn [l_fix with_fix f_above f_texts f_below].
   pose proof (delete_reach (l_lineno l) (f_above f) (f_below f) (f_texts f) (length (f_texts f)) 0 pre post) as D.
   apply D; [apply W|exact Hp|reflexivity].
@@ -631,6 +683,16 @@ Lemma blocks_with_fix_reset l f :
   l_fix l = Some f -> blocks_of_line (with_fix l (reset f)) = blocks_of_line l.
 Proof. intro E. unfold blocks_of_line. rewrite E. reflexivity. Qed.
 
+(* the current texts / inserted lines of a line, whether or not it has a fix object *)
+Definition cur_texts (l : line) : list str := match l_fix l with Some f => f_texts f | None => l_raw l end.
+Definition cur_above (l : line) : list str := match l_fix l with Some f => f_above f | None => [] end.
+Definition cur_below (l : line) : list str := match l_fix l with Some f => f_below f | None => [] end.
+
+Definition quiet_line (l l' : line) (acts : list (descr * Z)) : Prop :=
+  (forall j, ~ In (l_lineno l + Z.of_nat j) (map snd acts) -> nth_error (cur_texts l') j = nth_error (cur_texts l) j) /\
+  (~ In (l_lineno l) (map snd acts) -> cur_above l' = cur_above l) /\
+  (~ In (l_lineno l + Z.of_nat (length (l_raw l)) - 1) (map snd acts) -> cur_below l' = cur_below l).
+
 Lemma do_txn_reach o t l0 l4 printed :
   o_autofix o = true -> wf_line l0 -> idle l0 ->
   do_txn o t l0 = Ok (l4, printed) ->
@@ -640,7 +702,8 @@ Lemma do_txn_reach o t l0 l4 printed :
   (line_modified l4 = true -> line_modified l0 = true \/ printed <> []) /\
   (printed = [] -> line_bytes l4 = line_bytes l0) /\
   (printed <> [] -> line_modified l4 = true) /\
-  (line_modified l0 = true -> line_modified l4 = true).
+  (line_modified l0 = true -> line_modified l4 = true) /\
+  quiet_line l0 l4 printed.
 Proof.
   intros Ha W I. unfold do_txn, bind.
   (* fix := line.Autofix(); setDiag *)
@@ -649,14 +712,15 @@ Proof.
     l_fix l2 = Some f2 /\ f_actions f2 = [] /\ f_level f2 = true /\ f_diag f2 = t_diag t /\
     f_modified f2 = line_modified l0 /\ blocks_of_line l2 = blocks_of_line l0 /\
     wf_line l2 /\ l_lineno l2 = l_lineno l0 /\ l_raw l2 = l_raw l0 /\ l_file l2 = l_file l0 /\
-    f_above f2 ++ f_texts f2 ++ f_below f2 = line_bytes l0).
+    f_above f2 ++ f_texts f2 ++ f_below f2 = line_bytes l0 /\
+    f_above f2 = cur_above l0 /\ f_texts f2 = cur_texts l0 /\ f_below f2 = cur_below l0).
   { unfold autofix, bind, idle, line_modified in *. destruct (l_fix l0) as [f|] eqn:E.
     - destruct I as (A & D & L). rewrite D. unfold set_diag, bind, the_fix. rewrite E, L, D.
       eexists _, _. split; [reflexivity|]. cbn.
       unfold blocks_of_line. rewrite E. cbn.
       split; [reflexivity|]. split; [exact A|]. split; [reflexivity|]. split; [reflexivity|].
       split; [reflexivity|]. split; [reflexivity|].
-      split; [|repeat split; try reflexivity; unfold line_bytes; rewrite E; reflexivity].
+      split; [|repeat split; try reflexivity; unfold line_bytes, cur_above, cur_texts, cur_below; rewrite E; reflexivity].
       destruct W as [W1 W2 W3]. split; cbn; [exact W1|exact W2|]. rewrite E in W3. exact W3.
     - unfold set_diag, bind, the_fix. cbn.
       eexists _, _. split; [reflexivity|]. cbn.
@@ -664,16 +728,16 @@ Proof.
       split; [reflexivity|].
       split; [change (blocks_of_fix [] (l_raw l0) [] = blocks_of_line l0);
               unfold blocks_of_line; rewrite E; apply blocks_of_new|].
-      split; [|repeat split; try reflexivity; unfold line_bytes; rewrite E; cbn; apply app_nil_r].
+      split; [|repeat split; try reflexivity; unfold line_bytes, cur_above, cur_texts, cur_below; rewrite E; cbn; try reflexivity; apply app_nil_r].
       destruct W as [W1 W2 W3]. split; cbn; [exact W1|exact W2|reflexivity]. }
-  destruct P as (l2 & f2 & P0 & E2 & A2 & L2 & D2 & M2 & B2 & W2 & N2 & R2 & F2 & LB2).
+  destruct P as (l2 & f2 & P0 & E2 & A2 & L2 & D2 & M2 & B2 & W2 & N2 & R2 & F2 & LB2 & CA2 & CT2 & CB2).
   unfold bind in P0.
   destruct (autofix l0) as [[l1 f1]|]; [|discriminate]. rewrite P0.
   destruct (do_ops o (t_ops t) l2) as [l3|] eqn:DO; [|discriminate].
   pose proof (do_ops_step o (t_ops t) l2 l3 f2 Ha W2 E2 DO) as S.
   pose proof (step_ok_wf o l2 l3 W2 S) as W3.
   unfold step_ok in S. rewrite E2 in S. destruct (l_fix l3) as [f3|] eqn:E3; [|tauto].
-  destruct S as (acts & A3 & D3 & L3 & M3 & N3 & R3 & F3 & Len3 & S3 & NS3 & U3 & P3).
+  destruct S as (acts & A3 & D3 & L3 & M3 & N3 & R3 & F3 & Len3 & S3 & NS3 & U3 & Q3 & P3).
   rewrite A2 in A3. cbn [app] in A3.
   rewrite (apply_autofix o l3 f3); [|unfold is_autofix; rewrite Ha; reflexivity|exact E3|congruence|].
   2:{ rewrite A3, D3. exact S3. }
@@ -696,6 +760,12 @@ Proof.
   - intro Hne. unfold line_modified. cbn. rewrite A3 in *. destruct acts; [congruence|reflexivity].
   - intro Hm. unfold line_modified at 1. cbn. rewrite A3. destruct acts; [|reflexivity].
     rewrite M3, M2. exact Hm.
+  - rewrite A3. destruct Q3 as (QT & QA & QB). intros j Hj. rewrite <- CT2.
+    unfold cur_texts. cbn [l_fix with_fix reset f_texts]. apply QT. rewrite N2. exact Hj.
+  - rewrite A3. destruct Q3 as (QT & QA & QB). intro Hq. rewrite <- CA2.
+    unfold cur_above. cbn [l_fix with_fix reset f_above]. apply QA. rewrite N2. exact Hq.
+  - rewrite A3. destruct Q3 as (QT & QA & QB). intro Hq. rewrite <- CB2.
+    unfold cur_below. cbn [l_fix with_fix reset f_below]. apply QB. rewrite N2, R2. exact Hq.
 Qed.
 
 (* ---------- the lines of a file ---------- *)
@@ -783,7 +853,7 @@ Proof.
   apply Forall_split_mid in Wf as (Wf1 & Wf0 & Wf2).
   apply Forall_split_mid in Id as (Id1 & Id0 & Id2).
   apply Forall_split_mid in Fi as (Fi1 & Fi0 & Fi2).
-  destruct (do_txn_reach o t l0 l1 printed Ha Wf0 Id0 DT) as (W1 & I1 & N1 & R1 & F1 & NS1 & P1 & M1 & LB1 & MD1 & MM1).
+  destruct (do_txn_reach o t l0 l1 printed Ha Wf0 Id0 DT) as (W1 & I1 & N1 & R1 & F1 & NS1 & P1 & M1 & LB1 & MD1 & MM1 & QL1).
   constructor; cbn [s_store s_log s_ops].
   - apply Forall_split_mid. auto.
   - apply Forall_split_mid. auto.
@@ -1051,7 +1121,7 @@ Proof.
     assert (W0 : wf_line l0 /\ idle l0).
     { destruct I as [Wf Id _ _ _ _ _ _]. rewrite Es in Wf, Id.
       apply Forall_split_mid in Wf as (_ & W & _). apply Forall_split_mid in Id as (_ & D & _). auto. }
-    destruct (do_txn_reach o t l0 l1 printed Ha (proj1 W0) (proj2 W0) DT) as (_ & _ & _ & R1 & _ & _ & _ & _ & _ & _ & MM1).
+    destruct (do_txn_reach o t l0 l1 printed Ha (proj1 W0) (proj2 W0) DT) as (_ & _ & _ & R1 & _ & _ & _ & _ & _ & _ & MM1 & _).
     constructor; cbn [s_store s_ops]; [exact P| |].
     + rewrite (set_nth_raws (s_store st) (t_line t) l1 l0 En R1). exact Rw.
     + intro E. apply Cl. eapply set_nth_modified; eassumption.
@@ -1110,4 +1180,169 @@ Proof.
   - cbn [disk_after]. rewrite (Cl1 eq_refl).
     rewrite (unmodified_content file (s_store s1) (inv_file _ _ _ I1) (inv_unmod _ _ _ I1) M), Rw1 in C.
     exact C.
+Qed.
+
+(* ---------- nothing changes without a log line ---------- *)
+
+Definition no_entry (file : str) (log : list logline) (z : Z) : Prop :=
+  forall g, In g log -> g_file g = file -> g_lineno g <> z.
+
+Definition since_load (file : str) (log : list logline) (l : line) : Prop :=
+  (forall j, no_entry file log (l_lineno l + Z.of_nat j) -> nth_error (cur_texts l) j = nth_error (l_raw l) j) /\
+  (no_entry file log (l_lineno l) -> cur_above l = []) /\
+  (no_entry file log (l_lineno l + Z.of_nat (length (l_raw l)) - 1) -> cur_below l = []).
+
+Lemma no_entry_app file a b z : no_entry file (a ++ b) z -> no_entry file a z /\ no_entry file b z.
+Proof. intro H. split; intros g Hg; apply H; apply in_or_app; auto. Qed.
+
+Lemma since_load_mono file log log' l : since_load file log l -> since_load file (log ++ log') l.
+Proof.
+  intros (T & A & B). repeat split.
+  - intros j H. apply T. apply (no_entry_app _ _ _ _ H).
+  - intro H. apply A. apply (no_entry_app _ _ _ _ H).
+  - intro H. apply B. apply (no_entry_app _ _ _ _ H).
+Qed.
+
+Lemma no_entry_log_of file l printed z :
+  l_file l = file -> no_entry file (log_of l printed) z -> ~ In z (map snd printed).
+Proof.
+  intros F H Hin. apply in_map_iff in Hin as (p & <- & Hp).
+  apply (H (Log (l_file l) (fst p) (snd p))); [|exact F|reflexivity].
+  unfold log_of. apply in_map_iff. exists p. split; [reflexivity|exact Hp].
+Qed.
+
+Lemma step_since o keys file content e st st' :
+  o_autofix o = true -> no_sort_event e -> inv file content st ->
+  Forall (since_load file (s_log st)) (s_store st) ->
+  step o keys e st = Ok st' -> Forall (since_load file (s_log st')) (s_store st').
+Proof.
+  intros Ha Hn I SL. destruct e; try contradiction; cbn [step].
+  - destruct (nth_error (s_store st) (t_line t)) as [l0|] eqn:En.
+    2:{ intro H. inversion H; subst st'. exact SL. }
+    unfold bind. destruct (do_txn o t l0) as [[l1 printed]|] eqn:DT; [|discriminate].
+    intro H. inversion H; subst st'. clear H. cbn [s_store s_log].
+    destruct I as [Wf Id _ Fi _ _ _ _].
+    apply nth_error_split in En as (s1 & s2 & Es & Elen). rewrite Es in *. rewrite <- Elen, set_nth_split.
+    apply Forall_split_mid in Wf as (_ & W0 & _). apply Forall_split_mid in Id as (_ & I0 & _).
+    apply Forall_split_mid in Fi as (_ & F0 & _).
+    destruct (do_txn_reach o t l0 l1 printed Ha W0 I0 DT) as (_ & _ & N1 & R1 & F1 & _ & _ & _ & _ & _ & _ & QT & QA & QB).
+    apply Forall_split_mid in SL as (S1 & (T0 & A0 & B0) & S2).
+    apply Forall_split_mid. repeat split.
+    + eapply Forall_impl; [|exact S1]. intros; apply since_load_mono; assumption.
+    + intros j H. apply no_entry_app in H as [H1 H2]. rewrite N1, R1 in *.
+      rewrite QT; [apply T0; exact H1|]. eapply no_entry_log_of; [|exact H2]. congruence.
+    + intro H. apply no_entry_app in H as [H1 H2]. rewrite N1 in *.
+      rewrite QA; [apply A0; exact H1|]. eapply no_entry_log_of; [|exact H2]. congruence.
+    + intro H. apply no_entry_app in H as [H1 H2]. rewrite N1, R1 in *.
+      rewrite QB; [apply B0; exact H1|]. eapply no_entry_log_of; [|exact H2]. congruence.
+    + eapply Forall_impl; [|exact S2]. intros; apply since_load_mono; assumption.
+  - destruct (save o (s_store st)) as [ops b]. intro H. inversion H; subst st'. exact SL.
+  - unfold bind. destruct (check_executable o file0 executable committed) as [[printed ops]|]; [|discriminate].
+    intro H. inversion H; subst st'. cbn [s_store s_log].
+    eapply Forall_impl; [|exact SL]. intros; apply since_load_mono; assumption.
+Qed.
+
+Lemma run_since o keys file content evs : forall st st',
+  o_autofix o = true -> Forall no_sort_event evs -> inv file content st ->
+  Forall (since_load file (s_log st)) (s_store st) ->
+  run o keys evs st = Ok st' -> Forall (since_load file (s_log st')) (s_store st').
+Proof.
+  induction evs as [|e evs IH]; intros st st' Ha Hn I SL; cbn [run].
+  - intro H. inversion H; subst st'. exact SL.
+  - unfold bind. destruct (step o keys e st) as [s1|] eqn:S; [|discriminate].
+    inversion Hn; subst. intro H. eapply IH; [exact Ha|assumption| | |exact H].
+    + eapply step_inv; eassumption.
+    + eapply step_since; eassumption.
+Qed.
+
+Lemma init_since file groups : forall start,
+  Forall (since_load file []) (mk_lines file start groups).
+Proof.
+  induction groups as [|[raws text] gs IH]; intro start; cbn; constructor; [|apply IH].
+  unfold since_load, cur_texts, cur_above, cur_below. cbn. repeat split; reflexivity.
+Qed.
+
+Lemma run_since_load o keys file content groups evs st :
+  o_autofix o = true -> wf_groups content groups -> Forall no_sort_event evs ->
+  run o keys evs (init_state file groups) = Ok st ->
+  Forall (since_load file (s_log st)) (s_store st).
+Proof.
+  intros Ha Wg Hn R. eapply run_since; [exact Ha|exact Hn|apply init_inv; exact Wg| |exact R].
+  apply init_since.
+Qed.
+
+Lemma entry_dec file (log : list logline) z :
+  (exists g, In g log /\ g_file g = file /\ g_lineno g = z) \/ no_entry file log z.
+Proof.
+  induction log as [|g log [(x & Hx & E)|N]].
+  - right. intros g [].
+  - left. exists x. split; [right; exact Hx|exact E].
+  - destruct (str_eqb (g_file g) file) eqn:F.
+    + apply str_eqb_spec in F. destruct (Z.eq_dec (g_lineno g) z) as [Ez|Nz].
+      * left. exists g. repeat split; [left; reflexivity|exact F|exact Ez].
+      * right. intros x [<-|Hx] Fx; [exact Nz|exact (N x Hx Fx)].
+    + right. intros x [<-|Hx] Fx; [|exact (N x Hx Fx)].
+      rewrite <- Fx in F. rewrite str_eqb_refl in F. discriminate.
+Qed.
+
+(* a raw line whose bytes changed has a logged action with its line number; lines
+   were inserted above / below only with a logged action at the first / last raw line *)
+Theorem nothing_unlogged o keys file content groups evs st :
+  o_autofix o = true -> wf_groups content groups -> Forall no_sort_event evs ->
+  run o keys evs (init_state file groups) = Ok st ->
+  forall l, In l (s_store st) ->
+    (forall j, nth_error (cur_texts l) j <> nth_error (l_raw l) j ->
+       exists g, In g (s_log st) /\ g_file g = file /\ g_lineno g = l_lineno l + Z.of_nat j) /\
+    (cur_above l <> [] -> exists g, In g (s_log st) /\ g_file g = file /\ g_lineno g = l_lineno l) /\
+    (cur_below l <> [] -> exists g, In g (s_log st) /\ g_file g = file /\
+                                     g_lineno g = l_lineno l + Z.of_nat (length (l_raw l)) - 1).
+Proof.
+  intros Ha Wg Hn R l Hl.
+  pose proof (run_since_load o keys file content groups evs st Ha Wg Hn R) as SL.
+  rewrite Forall_forall in SL. destruct (SL l Hl) as (T & A & B).
+  repeat split.
+  - intros j Hne. destruct (entry_dec file (s_log st) (l_lineno l + Z.of_nat j)) as [H|H]; [exact H|].
+    exfalso. apply Hne. apply T. exact H.
+  - intro Hne. destruct (entry_dec file (s_log st) (l_lineno l)) as [H|H]; [exact H|].
+    exfalso. apply Hne. apply A. exact H.
+  - intro Hne. destruct (entry_dec file (s_log st) (l_lineno l + Z.of_nat (length (l_raw l)) - 1)) as [H|H]; [exact H|].
+    exfalso. apply Hne. apply B. exact H.
+Qed.
+
+Lemma nth_error_ext {A} (a b : list A) : (forall j, nth_error a j = nth_error b j) -> a = b.
+Proof.
+  revert b; induction a as [|x a IH]; intros [|y b] H.
+  - reflexivity.
+  - specialize (H O). discriminate.
+  - specialize (H O). discriminate.
+  - pose proof (H O) as H0. cbn in H0. inversion H0; subst. f_equal. apply IH. intro j. exact (H (S j)).
+Qed.
+
+(* a logical line none of whose physical line numbers occurs in the log is written
+   back byte for byte *)
+Theorem untouched_preserved o keys file content groups evs st :
+  o_autofix o = true -> wf_groups content groups -> Forall no_sort_event evs ->
+  run o keys evs (init_state file groups) = Ok st ->
+  forall l, In l (s_store st) ->
+    (forall g, In g (s_log st) -> g_file g = file ->
+       ~ (l_lineno l <= g_lineno g < l_lineno l + Z.of_nat (length (l_raw l)))) ->
+    line_bytes l = l_raw l.
+Proof.
+  intros Ha Wg Hn R l Hl Hno.
+  pose proof (run_since_load o keys file content groups evs st Ha Wg Hn R) as SL.
+  rewrite Forall_forall in SL. destruct (SL l Hl) as (T & A & B).
+  pose proof (run_inv o keys file content evs _ _ Ha Hn (init_inv file content groups Wg) R) as I.
+  destruct I as [Wf _ _ _ _ _ _ _]. rewrite Forall_forall in Wf. destruct (Wf l Hl) as [W1 W2 W3].
+  assert (Hpos : (0 < length (l_raw l))%nat) by (destruct (l_raw l); [congruence|cbn; lia]).
+  assert (NE : forall z, l_lineno l <= z < l_lineno l + Z.of_nat (length (l_raw l)) -> no_entry file (s_log st) z).
+  { intros z Hz g Hg Fg Eg. apply (Hno g Hg Fg). lia. }
+  assert (ET : cur_texts l = l_raw l).
+  { apply nth_error_ext. intro j. destruct (le_lt_dec (length (l_raw l)) j) as [Hge|Hlt].
+    - assert (E1 : nth_error (l_raw l) j = None) by (apply nth_error_None; exact Hge).
+      rewrite E1. apply nth_error_None. unfold cur_texts. destruct (l_fix l); [rewrite W3|]; exact Hge.
+    - apply T. apply NE. lia. }
+  assert (EA : cur_above l = []) by (apply A; apply NE; lia).
+  assert (EB : cur_below l = []) by (apply B; apply NE; lia).
+  unfold line_bytes, cur_texts, cur_above, cur_below in *. destruct (l_fix l); [|reflexivity].
+  rewrite EA, ET, EB. cbn. apply app_nil_r.
 Qed.
